@@ -38,6 +38,29 @@ Shapes ==
 
 ShapeNames == DOMAIN Shapes
 
+(* The same shapes as the assembly text groups them: an array entry is one *)
+(* textual operand @a[r] (two abstract operands), a slice @a[r:s] three.   *)
+Groups ==
+  [ NoOp        |-> << >>,
+    Reg         |-> <<"reg">>,
+    RegReg      |-> <<"reg","reg">>,
+    RegImmImm   |-> <<"reg","num","num">>,
+    RegRegImmImm|-> <<"reg","reg","num","num">>,
+    RegRegImm4  |-> <<"reg","reg","num","num","num","num">>,
+    RegRegReg   |-> <<"reg","reg","reg">>,
+    RegRegRegReg|-> <<"reg","reg","reg","reg">>,
+    Imm         |-> <<"num">>,
+    ImmImm      |-> <<"num","num">>,
+    RegRegImm   |-> <<"reg","reg","num">>,
+    RegImm      |-> <<"reg","num">>,
+    RegEntry    |-> <<"reg","entry">>,
+    RegAddr     |-> <<"reg","addr">>,
+    ArrayEntry  |-> <<"entry">>,
+    ArraySlice  |-> <<"slice">>,
+    Addr        |-> <<"addr">>,
+    Reg5        |-> <<"reg","reg","reg","reg","reg">> ]
+GroupWidth(g) == CASE g = "entry" -> 2 [] g = "slice" -> 3 [] OTHER -> 1
+
 E(mn, op, sh) == [mn |-> mn, op |-> op, shape |-> sh]
 
 (* Core instructions, in the order of CORE_INSTRUCTIONS. *)
